@@ -427,6 +427,38 @@ func clip(x []string) []string {
 	return x
 }
 
+// abortWriter cancels the request's context at its k-th write.
+type abortWriter struct {
+	*httptest.ResponseRecorder
+	k, n   int
+	cancel context.CancelFunc
+}
+
+func (w *abortWriter) Write(p []byte) (int, error) {
+	w.n++
+	if w.n >= w.k {
+		w.cancel()
+	}
+	return w.ResponseRecorder.Write(p)
+}
+
+// pollCtx is a context that turns out cancelled at the after-th look at it.
+type pollCtx struct {
+	context.Context
+	polls  atomic.Int32
+	after  int32
+	cancel context.CancelFunc
+}
+
+func (c *pollCtx) look() {
+	if c.polls.Add(1) >= c.after {
+		c.cancel()
+	}
+}
+
+func (c *pollCtx) Done() <-chan struct{} { c.look(); return c.Context.Done() }
+func (c *pollCtx) Err() error            { c.look(); return c.Context.Err() }
+
 type recWriter struct{ recs []string }
 
 func (w *recWriter) Write(p []byte) (int, error) {
@@ -564,6 +596,30 @@ func TestC22(t *testing.T) {
 					return
 				}
 				r.Violation(format+"-"+strings.Fields(what)[0], w)
+			}
+			// what happened before must not matter: in a third of the stores a
+			// Prometheus scrape and aborted /varz and /graphite requests (client
+			// gone after the k-th write) precede the judged exports
+			if i%3 == 1 {
+				var pb bytes.Buffer
+				_ = e.Write(&pb)
+				for _, h := range []string{"varz", "graphite"} {
+					ctx, cancel := context.WithCancel(context.Background())
+					aw := &abortWriter{ResponseRecorder: httptest.NewRecorder(), k: 1 + g.Intn(4), cancel: cancel}
+					var rctx context.Context = ctx
+					if g.Bool() {
+						// or: gone by the k-th time the handler looks at the context
+						rctx = &pollCtx{Context: ctx, after: int32(1 + g.Intn(4)), cancel: cancel}
+					}
+					req := httptest.NewRequest("GET", "/"+h, nil).WithContext(rctx)
+					if h == "varz" {
+						e.HandleVarz(aw, req)
+					} else {
+						e.HandleGraphite(aw, req)
+					}
+					cancel()
+				}
+				r.Count("stores_with_preceding_scrape_and_aborted_requests", 1)
 			}
 			// JSON
 			rec := httptest.NewRecorder()
